@@ -48,8 +48,14 @@ struct Decision {
     node_stage: Option<bool>,
 }
 
+/// Sender addresses of all three kinds a dual-stack socket reports: IPv4, IPv4-mapped IPv6, IPv6.
 fn ip_of(i: u8) -> IpAddr {
-    IpAddr::V4(Ipv4Addr::new(192, 0, 2, 10 + i))
+    let v4 = Ipv4Addr::new(192, 0, 2, 10 + i);
+    match i % 3 {
+        1 => IpAddr::V6(v4.to_ipv6_mapped()),
+        2 => IpAddr::V6(std::net::Ipv6Addr::new(0x2001, 0xdb8, 0, 0, 0, 0, 0, 10 + i as u16)),
+        _ => IpAddr::V4(v4),
+    }
 }
 fn node_of(i: u8) -> NodeId {
     let mut b = [0x11u8; 32];
